@@ -610,7 +610,9 @@ func diag(sb *strings.Builder, n *Node, depth int) {
 // decoder reads as the same value: shortest heads, sorted map keys, text and
 // byte strings identified, null and undefined identified, bstr wrappers
 // normalised recursively.
-func LenientNormal(n *Node) []byte {
+func LenientNormal(n *Node) []byte { return Encode(lenientTree(n)) }
+
+func lenientTree(n *Node) *Node {
 	c := Clone(n)
 	var norm func(n *Node)
 	norm = func(n *Node) {
@@ -655,5 +657,55 @@ func LenientNormal(n *Node) []byte {
 		}
 	}
 	norm(c)
-	return Encode(c)
+	return c
+}
+
+
+// LenientEqual reports whether a lenient decoder that authenticates decoded values reads
+// orig and mut as the same message: equal lenient normal forms, or differing only at
+// 16-byte byte strings of orig (nonces and GUIDs, which the library decodes into [16]byte
+// and zero-pads) that mut carries with trailing zero bytes stripped.
+func LenientEqual(orig, mut *Node) bool {
+	a, b := lenientTree(orig), lenientTree(mut)
+	if bytes.Equal(Encode(a), Encode(b)) {
+		return true
+	}
+	var eq func(a, b *Node) bool
+	eq = func(a, b *Node) bool {
+		if a.Kind == Bytes && a.Inner == nil && len(a.Bytes) == 16 {
+			var bb []byte
+			switch {
+			case b.Kind == Bytes && b.Inner == nil:
+				bb = b.Bytes
+			case b.Kind == Simple && b.Val == 22: // empty string normalised to null
+			default:
+				return false
+			}
+			if len(bb) > 16 || !bytes.Equal(a.Bytes[:len(bb)], bb) {
+				return false
+			}
+			for _, x := range a.Bytes[len(bb):] {
+				if x != 0 {
+					return false
+				}
+			}
+			return true
+		}
+		if a.Kind != b.Kind || a.Val != b.Val || a.FloatW != b.FloatW || len(a.Items) != len(b.Items) || (a.Inner == nil) != (b.Inner == nil) {
+			return false
+		}
+		if a.Kind == Bytes && a.Inner == nil && !bytes.Equal(a.Bytes, b.Bytes) {
+			return false
+		}
+		if a.Inner != nil && !eq(a.Inner, b.Inner) {
+			return false
+		}
+		for i := range a.Items {
+			if !eq(a.Items[i], b.Items[i]) {
+				return false
+			}
+		}
+		return true
+	}
+	return eq(a, b)
 }
